@@ -4,12 +4,12 @@
 # the patched tree builds, the full stock suite still passes, the demonstration fails; then restores the clean tree.
 # Writes <dir>/confirm.log and prints a one-line verdict.
 D=$(readlink -f "$1"); shift; EXTRA="$@"
-W=/var/tmp/vf-conf; L=$W/_b/gnu_12.2_cxx11_64_relwithdebinfo; LOG=$D/confirm.log
+W=${VF_CONF:-/var/tmp/vf-conf}; L=$W/_b/gnu_12.2_cxx11_64_relwithdebinfo; LOG=$D/confirm.log
 cd $W || exit 2
 git checkout -q -- . ; git checkout -q --detach $(git -C /repo rev-parse HEAD) 2>/dev/null
 { echo "== $(date) confirm $D at $(git rev-parse --short HEAD)"; } > $LOG
 nice cmake --build _b -j12 >> $LOG 2>&1 || { echo "CONFIRM $D: clean build failed"; exit 2; }
-demo() { g++ -std=c++17 -O1 -pthread -I$W/include $EXTRA $D/demo.cpp -o /var/tmp/vf-conf-demo -L$L -ltbb -ltbbmalloc -Wl,-rpath,$L >> $LOG 2>&1 || { echo "demo build failed" >> $LOG; return 99; }; local bad=0; for i in 1 2 3; do timeout 300 /var/tmp/vf-conf-demo >> $LOG 2>&1; rc=$?; echo "demo run $i rc=$rc" >> $LOG; [ $rc -ne 0 ] && bad=$((bad+1)); done; return $bad; }
+demo() { g++ -std=c++17 -O1 -pthread -I$W/include $EXTRA $D/demo.cpp -o $W-demo -L$L -ltbb -ltbbmalloc -Wl,-rpath,$L >> $LOG 2>&1 || { echo "demo build failed" >> $LOG; return 99; }; local bad=0; for i in 1 2 3; do timeout 300 $W-demo >> $LOG 2>&1; rc=$?; echo "demo run $i rc=$rc" >> $LOG; [ $rc -ne 0 ] && bad=$((bad+1)); done; return $bad; }
 echo "-- demo on the clean tree" >> $LOG; demo; CLEAN_BAD=$?
 git apply $D/patch.diff >> $LOG 2>&1 || { echo "CONFIRM $D: patch does not apply"; exit 2; }
 nice cmake --build _b -j12 >> $LOG 2>&1; BUILD=$?
